@@ -5,7 +5,7 @@ import z3
 from . import sorts as S
 from .sorts import V, INT, BOOL, STR, BYTES, NONE, ANY, Seq, Tup, Opt, SetS, MapS, Opaque, Enum, Obj, PySide, EXC, FUNC
 from .state import EngineError, SpecDrift, Ctx
-from .engine import GLOB, POLY_LIST, POLY_DICT, POLY_SET, ITER, LValue, exc_value, LOGGING_CALLS, EXC_NAME
+from .engine import GLOB, POLY_LIST, POLY_DICT, POLY_SET, ITER, LValue, exc_value, imp_value, LOGGING_CALLS, EXC_NAME
 
 _ufuncs = {}
 
@@ -159,7 +159,10 @@ class CallMixin:
                 s3.trace = s3.trace + ((c.label + "!raise", line),)
             if self.feasible(s3):
                 self.crash_point(s3, node, c.label + "!raise")
-                exc.append((s3, exc_value(cls + "*" if cls in ("Exception", "BaseException") else cls, line, c.label)))
+                ev_ = exc_value(cls + "*" if cls in ("Exception", "BaseException") else cls, line, c.label)
+                # the generic clause of a contract stands for "any other" exception: not the classes listed beside it
+                ev_.x["excludes"] = [k for k in raises if k != cls]
+                exc.append((s3, ev_))
         # normal exit
         if not c.pure:
             st.trace = st.trace + ((c.label, line),)
@@ -346,7 +349,7 @@ class CallMixin:
     def seq_pop(self, recv, lv, args, kw, st, node, exc):
         lv = self._mut(lv, node)
         if recv.s == POLY_LIST:
-            exc.append((st, exc_value("IndexError", node.lineno, "pop from empty list")))
+            exc.append((st, imp_value("IndexError", node.lineno, "pop from empty list")))
             return []
         st = self.raise_if(st, S.Len(recv) == 0, "IndexError", node, exc, "pop from empty list")
         if st is None:
@@ -389,7 +392,7 @@ class CallMixin:
     def seq_index(self, recv, lv, args, kw, st, node, exc):
         x = self.coerce(args[0], recv.s.elem)
         if x is None:
-            exc.append((st, exc_value("ValueError", node.lineno)))
+            exc.append((st, imp_value("ValueError", node.lineno)))
             return []
         st = self.raise_if(st, S.Not(S.In(x, recv)), "ValueError", node, exc)
         if st is None:
@@ -546,7 +549,7 @@ class CallMixin:
     def set_remove(self, recv, lv, args, kw, st, node, exc):
         lv = self._mut(lv, node)
         if recv.s == POLY_SET:
-            exc.append((st, exc_value("KeyError", node.lineno)))
+            exc.append((st, imp_value("KeyError", node.lineno)))
             return []
         x = self.coerce(args[0], recv.s.elem)
         st = self.raise_if(st, S.Not(S.In(x, recv)), "KeyError", node, exc)
@@ -618,7 +621,7 @@ class CallMixin:
     def set_pop(self, recv, lv, args, kw, st, node, exc):
         lv = self._mut(lv, node)
         if recv.s == POLY_SET:
-            exc.append((st, exc_value("KeyError", node.lineno)))
+            exc.append((st, imp_value("KeyError", node.lineno)))
             return []
         st = self.raise_if(st, S.Not(S.truthy(recv)), "KeyError", node, exc, "pop from an empty set")
         if st is None:
@@ -649,7 +652,7 @@ class CallMixin:
         if recv.s == POLY_DICT:
             if len(args) > 1:
                 return [(st, args[1])]
-            exc.append((st, exc_value("KeyError", node.lineno)))
+            exc.append((st, imp_value("KeyError", node.lineno)))
             return []
         k = self.coerce(args[0], recv.s.key)
         res = []
@@ -661,7 +664,7 @@ class CallMixin:
             if len(args) > 1:
                 res.append((hasnt, args[1]))
             else:
-                exc.append((hasnt, exc_value("KeyError", node.lineno)))
+                exc.append((hasnt, imp_value("KeyError", node.lineno)))
         return res
 
     def map_setdefault(self, recv, lv, args, kw, st, node, exc):
@@ -804,14 +807,14 @@ class CallMixin:
                 f = ufunc("IntOf", v.s, INT)
                 if bad is not None:
                     bad2 = bad.copy()
-                    exc.append((bad2, exc_value("ValueError", e.lineno, "int() of a non-numeral")))
+                    exc.append((bad2, imp_value("ValueError", e.lineno, "int() of a non-numeral")))
                     # "-12", " 12", "+1" etc. are accepted by Python but not by str.to_int: uninterpreted value
                     res.append((bad, V(INT, f(v.t))))
                 if ok is not None:
                     res.append((ok, V(INT, n)))
             elif isinstance(v.s, S._Str):
                 f = ufunc("IntOfBase", v.s, INT, INT)
-                exc.append((s1.copy(), exc_value("ValueError", e.lineno, "int() with base")))
+                exc.append((s1.copy(), imp_value("ValueError", e.lineno, "int() with base")))
                 res.append((s1, V(INT, f(v.t, a[1].t))))
             else:
                 exc.append((s1.copy(), exc_value("Exception*", e.lineno, "int() of opaque")))
